@@ -50,6 +50,15 @@ theorem C17_fact_precision_bound_and_nan_refused :
     Generated.maxDecimalPrecisionV2 = some 18 ∧ Generated.maxDecimalPrecisionV3 = some 18 ∧
     Generated.floatNaNRefusedV2 = true ∧ Generated.floatNaNRefusedV3 = true := by decide
 
+/-- The store keeps the value it is given: the configuration stores rewrite an existing entry of the value
+    side maps whenever the write carries another index than the stored entry - not "unless the bytes are
+    the same": the sign, precision and member lengths of a value live in its type options, so two
+    different values can share type and bytes (seeded change C17-m3). -/
+theorem C17_fact_store_rewrites_whatever_the_bytes (g : Generated.V2G) :
+    Generated.StoreFacts.v2CfgStoreRewriteGuard g = (g.n "pv.Index" != g.n "entry.Value.Index") ∧
+    Generated.StoreFacts.v3CfgStoreRewriteGuard g = (g.n "pv.Index" != g.n "entry.Value.Index") :=
+  ⟨rfl, rfl⟩
+
 /-- `handleLeafList` looks at its lists in the order string, int, uint, bool, bytes, decimal,
     float, each building its own leaf-list type; widths default to 32. -/
 theorem C17_fact_leafList_chain_and_defaults :
